@@ -95,7 +95,7 @@ static double wall() { struct timespec ts; clock_gettime(CLOCK_MONOTONIC, &ts); 
 
 struct Acc {
 	uint64_t evals = 0, nontrivial = 0;
-	std::set<uint64_t> distinct;
+	std::set<uint64_t> distinct, shapes;
 	std::map<std::string, int64_t> probes, faults, policies;
 	uint64_t steps = 0, switches = 0, sim_us = 0, contended = 0, overlap3 = 0, max_tasks = 0, api_calls = 0, wire_msgs = 0, uplink_frames = 0, decision_points = 0;
 	J samples = J::arr();
@@ -140,6 +140,7 @@ static uint64_t run_one(Prop *prop, const J &plan, Acc *acc, bool count) {
 			acc->nontrivial++;
 			uint64_t key = fnv1a_u64((uint64_t) facts.geti("shape", 0), h);
 			acc->distinct.insert(key);
+			acc->shapes.insert((uint64_t) facts.geti("shape", 0));
 			if (acc->samples.size() < 2) acc->samples.push(trim_plan(plan));
 		}
 	}
@@ -238,6 +239,9 @@ int main(int argc, char **argv) {
 	J dh = J::arr();
 	for (uint64_t x : acc.distinct) { char b[24]; snprintf(b, sizeof b, "%016llx", (unsigned long long) x); dh.push(b); }
 	s.set("distinct_hashes", dh);
+	J sh = J::arr();
+	for (uint64_t x : acc.shapes) { char b[24]; snprintf(b, sizeof b, "%016llx", (unsigned long long) x); sh.push(b); }
+	s.set("distinct_shapes", sh);
 	auto mj = [](const std::map<std::string, int64_t> &m) { J o = J::obj(); for (auto &kv : m) o.set(kv.first, (long long) kv.second); return o; };
 	s.set("probes", mj(acc.probes));
 	s.set("faults_fired", mj(acc.faults));
